@@ -4,7 +4,7 @@
             five actions, the route of the real mux table that matched, the response of
             the real router, whether the filer stand-in saw an operation, the identity
             headers Auth left on the request, and the (handler, ACTION constant) pairs extracted
-            from the text of s3api_server.go.
+            from the text of s3api_server.go, and the buckets the filer stand-in was asked to GET from.
    PolCase: one IAM policy document + prior actions; observables: iamapi.GetActions,
             the user's actions after PutUserPolicy, Identity.canDo on a grid. *)
 From Coq Require Import List NArith Bool String.
@@ -28,6 +28,8 @@ Record req_case := {
   i_resp : N * string;
   i_filer : bool;                            (* the filer stand-in saw any operation (lookup, mkdir, upload ...) *)
   i_fwrite : bool;                           (* ... a data upload (putToFiler) *)
+  i_fread : list string;                     (* buckets (first segment under BucketsPath) the filer stand-in was asked to GET
+                                                an object of over HTTP, sorted, without repetition *)
   i_idhdr : string * bool;
   i_route_actions : list (string * string)
 }.
@@ -119,7 +121,10 @@ Definition req_corr (c : req_case) : bool :=
                match handler_gate (c_ids c) r (c_claim c) (c_env c) i w with
                | GReject h => resp_eqb (herr_resp h) (i_resp c) && negb (i_fwrite c) &&
                               (N.eqb i PUT_OBJECT_PART_IDX || negb (i_filer c))
-               | GPass _ => true
+               | GPass _ =>
+                   (* 7. copy routes: which bucket the handler downloads the source from *)
+                   negb (N.eqb i COPY_OBJECT_IDX || N.eqb i COPY_OBJECT_PART_IDX) ||
+                   list_eqb String.eqb (match copy_reads_source r (c_env c) i with Some sb => [sb] | None => [] end) (i_fread c)
                end
       end
   end.
@@ -155,10 +160,13 @@ Definition effect_spec_obs (c : req_case) (i : N) : bool :=
   let t := i_type c in
   match nth_error (i_route_actions c) (N.to_nat i) with
   | Some (_, action) =>
-      authorized_spec (c_ids c) t (c_claim c) action (rq_bucket (c_req c)) ||
+      (authorized_spec (c_ids c) t (c_claim c) action (rq_bucket (c_req c)) ||
       (is_streaming t && (N.eqb i PUT_OBJECT_IDX || N.eqb i PUT_OBJECT_PART_IDX) &&
        seed_spec (c_ids c) (c_req c) (c_claim c)) ||
-      (is_post_policy t && N.eqb i POST_POLICY_IDX && policy_spec (c_ids c) (c_req c) (e_form (c_env c)))
+      (is_post_policy t && N.eqb i POST_POLICY_IDX && policy_spec (c_ids c) (c_req c) (e_form (c_env c))))
+      (* ... and whatever bucket the filer was asked to hand an object of (GetObject: the URL's
+         bucket; copies: the SOURCE bucket): the signer may Read it *)
+      && forallb (fun b => authorized_spec (c_ids c) t (c_claim c) ACTION_READ b) (i_fread c)
   | None => authenticated_spec (c_ids c) t (c_claim c)          (* ListBuckets *)
   end.
 
@@ -221,6 +229,7 @@ Definition req_trig (c : req_case) : option N :=
   | Some i =>
       if trigger1 (c_ids c) (c_req c) (c_env c) i then Some 1%N
       else if trigger0 (c_ids c) (c_req c) (c_claim c) i then Some 0%N
+      else if trigger3 (c_ids c) (c_req c) (c_claim c) (c_env c) i then Some 3%N
       else t2
   | None => t2
   end.
